@@ -419,7 +419,9 @@ class Engine:
             self.prove(self.site("sqrt-nonneg"), za >= 0, "safety")
         elif nonneg_known:
             self.assume(za >= 0)  # argument is syntactically a sum of squares
-        key = ("sqrt", za.get_id())
+        # one ghost root per argument *polynomial* (sum-of-monomials normal form), so that the same quantity
+        # computed by the code and written in a clause denotes the same root
+        key = ("sqrt", z3.simplify(za, som=True).sexpr())
         if key in self.ghost:
             return self.ghost[key]
         y = fresh("real", "sqrt")
